@@ -17,7 +17,8 @@ TITLE = ("Structural and linear-algebraic necessary conditions of 'decrypt inver
          "copy propagation); (R4) the Mantis mode switch writes exactly k0, k0prime, k1; (R5) every site that XORs the "
          "reflection constant into k1 applies the same eight bytes; (R6) for every SKINNY encrypt/decrypt pair (scalar and "
          "vector) in every configuration, GF(2) affine interpretation of one round: decrypt's linear layer composed with "
-         "encrypt's is the identity on all state bits including key and round-constant terms. (R7) for every Mantis block function (scalar, tweaked, parallel vector, CTR batch) one backward round composed with one forward round restores the tweak and feeds exactly the forward S-box output into the S-box for every state bit.")
+         "encrypt's is the identity on all state bits including key and round-constant terms. (R7) for every Mantis block function (scalar, tweaked, parallel vector, CTR batch) one backward round composed with one forward round restores the tweak and feeds exactly the forward S-box output into the S-box for every state bit. (R8) every non-linear helper that R6/R7 cut out and that works on two or more "
+         "ways at once (the interleaved two-/four-way vector S-boxes, forward and inverse) computes each way from that way only (may-dependency propagation): a step of one row that reads another row is reported, the S-box values themselves are not decided.")
 
 
 def walk_start(prog, an, f):
@@ -293,6 +294,8 @@ def run(ctx, rep):
         nwalk, nstart, nsw, nmaps, npairs = run_config(ctx, rep, cfg)
         ninv = affine_rules.check_inverse(ctx, rep, cfg)
         nman = affine_rules.check_mantis(ctx, rep, cfg)
+        nway = affine_rules.check_ways(ctx, rep, cfg)
+        rep.analysed.setdefault("multiway_cut_helpers", {})[config_name(cfg)] = nway
         if cfg is None:
             rep.floor("C03.R7", "Mantis block functions whose forward and backward rounds were composed", nman, 2)
         if cfg is None:
@@ -303,5 +306,11 @@ def run(ctx, rep):
             rep.floor("C03.R4", "mode-switch functions", nsw, 2)
             rep.floor("C03.R5", "sites applying the reflection constant to k1", nmaps, 1)
             rep.floor("C03.R3", "inverse helper pairs", npairs, 4)
+            # fixture: a way that reads another way must be flagged, the clean twin must not
+            fp = ctx.fixture("c03_bad_ways.c")
+            sb = affine_rules.way_summary(fp, fp.resolve(None, "fx_sbox_two"))
+            sg = affine_rules.way_summary(fp, fp.resolve(None, "fx_sbox_two_ok"))
+            rep.fixture("C03.R8", "c03_bad_ways.c", bool(sb) and sb.get(1) == frozenset({0, 1}) and sg == {0: frozenset({0}), 1: frozenset({1})},
+                        "mixing helper: %s; clean twin: %s" % (sb, sg))
         else:
             ctx.release(cfg)
